@@ -30,7 +30,7 @@ PROPS = {
         "rule": "cases (op, s, t, alias, nil, u64): op from {add,sub,mul,square,invert,pow,setuint64,zero,one,minusone,set,copy}; "
                 "operands from the boundary-biased generator in canonical (via Decode) and Montgomery-limb domains; 10% aliased, 10% nil. "
                 "Oracle math/big mod n plus stored-limbs canonicity. Non-trivial = an operand (or the uint64) is > 1. Distinct by case hash.",
-        "units": [unit("props", "^TestC06", tier(120000, 8, 300), tier(6000000, 16, 3000), fuzz=["FuzzScalarOps"])],
+        "units": [unit("props", "^TestC06", tier(120000, 8, 300), tier(6000000, 16, 3000, fuzztime=90), fuzz=["FuzzScalarOps"])],
         "checks_expected": ["C06/ops"],
     },
     "C07": {
@@ -38,7 +38,7 @@ PROPS = {
                 "derived from valid encodings, random 0..80 bytes, random 32 bytes) through Decode/UnmarshalBinary/DecodeHex (hex: "
                 "upper/mixed case, odd length, non-hex rune); non-trivial = 32-byte input within 2^128 of n or differing from n in one "
                 "limb, or a non-empty wrong length, or malformed hex. encode: scalars in both domains; non-trivial = value > 1.",
-        "units": [unit("props", "^TestC07", tier(120000, 8, 300), tier(6000000, 16, 3000), fuzz=["FuzzScalarDecode"])],
+        "units": [unit("props", "^TestC07", tier(120000, 8, 300), tier(6000000, 16, 3000, fuzztime=90), fuzz=["FuzzScalarDecode"])],
         "checks_expected": ["C07/decode", "C07/encode"],
     },
     "C01": {
@@ -96,7 +96,7 @@ PROPS = {
                 "implementation (sum taken on secp256k1 after the isogeny), determinism, result decodes. Non-trivial = every case with a "
                 "non-empty DST (classes of the model's branch trace are counted). Distinct by case hash.",
         "units": [unit("props", "^TestC08", tier(8000, 8, 600), tier(400000, 16, 3400, fuzztime=120), fuzz=["FuzzHashToCurve"])],
-        "checks_expected": ["C08/hash2curve"],
+        "checks_expected": ["C08/hash2curve", "C08/sequence"],
     },
     "C09": {
         "rule": "hash2scalar: (msg, DST, layouts) as for C08 against OS2IP(expand_message_xmd(msg, DST, 48)) mod n of the model. "
@@ -105,7 +105,7 @@ PROPS = {
                 ">= n. expander (white-box): expandXMD(msg, DST, L) for L in {48, 96} against the model. Distinct by case hash.",
         "units": [unit("props", "^TestC09", tier(16000, 4, 600), tier(800000, 8, 3400)),
                   unit("internalpkg", "^TestC09", tier(160000, 4, 600), tier(6000000, 8, 3400), overlay="access")],
-        "checks_expected": ["C09/hash2scalar", "C09/widereduce", "C09/expander"],
+        "checks_expected": ["C09/hash2scalar", "C09/sequence", "C09/widereduce", "C09/expander"],
     },
     "C11": {
         "rule": "sswu: field elements u from the boundary-biased generator in canonical and Montgomery domains, the three exceptional "
@@ -121,7 +121,7 @@ PROPS = {
                 "Montgomery-limb domains; equals also on pairs differing in exactly one Montgomery limb; sqrtratio with 1/4 forced "
                 "squares. Oracle math/big mod p, canonicity of stored limbs. Non-trivial = an operand > 1. bytes: 32-byte strings around "
                 "p (p+-d, one limb replaced, top of range) for the parser flag/value, 48-byte classes for the wide reduction.",
-        "units": [unit("internalpkg", "^TestC12", tier(160000, 8, 600), tier(8000000, 16, 3400), fuzz=["FuzzFieldOps"])],
+        "units": [unit("internalpkg", "^TestC12", tier(160000, 8, 600), tier(8000000, 16, 3400, fuzztime=90), fuzz=["FuzzFieldOps"])],
         "checks_expected": ["C12/ops", "C12/bytes"],
     },
     "C10": {
